@@ -45,7 +45,7 @@ def _check_grammar(family, holes, perm, maxlen) -> None:
     exact = {s: p for s, p in parsers.items() if not p.is_ambiguous()}
     if not exact:
         raise Reject()
-    for toks in G.all_token_strings(maxlen):
+    for toks in G.all_token_strings(maxlen, G.terms_of(g)):
         member = G.recognises(g, start, toks)
         outcomes = {}
         for smart, parser in exact.items():
